@@ -69,6 +69,16 @@ def make_mesh(cfg):
             A3full = A3
         A = A3full
         b = np.array([0.3, -0.2, 0.0 if dim == 2 else 0.1])
+    if var == "mirror":
+        # orientation-reversing affine image (det A < 0): every element has a negative Jacobian determinant
+        A3full = np.eye(3)
+        if dim == 2:
+            A3full[:2, :2] = A2
+        else:
+            A3full = A3.copy()
+        A3full = A3full @ np.diag([-1.0, 1.0, 1.0])
+        A = A3full
+        b = np.array([1.3, -0.2, 0.0 if dim == 2 else 0.1])
     if var in ("renum", "affine+renum"):
         rnd = random.Random(harness.seed() + 11)
         perm = list(range(mesh.Nn))
@@ -372,26 +382,28 @@ def main():
             {"sim": "elastic", "elem": "TETRA4", "law": "iso", "variant": "affine"},
             {"sim": "elastic", "elem": "HEXA8", "law": "trans", "variant": "plain"},
             {"sim": "elastic", "elem": "PRISM6", "law": "aniso", "variant": "renum"},
+            {"sim": "elastic", "elem": "TRI6", "law": "iso_stress", "variant": "mirror"}, {"sim": "elastic", "elem": "HEXA8", "law": "iso", "variant": "mirror"},
+            {"sim": "thermal", "elem": "QUAD4", "variant": "mirror"},
             {"sim": "thermal", "elem": "SEG3"}, {"sim": "thermal", "elem": "TRI10", "variant": "affine"},
             {"sim": "thermal", "elem": "QUAD9", "variant": "renum"}, {"sim": "thermal", "elem": "TETRA10", "variant": "plain"},
         ]
     else:
         laws2 = ["iso_stress", "iso_strain", "trans", "ortho", "aniso"]
         laws3 = ["iso", "trans", "ortho", "aniso"]
-        variants = ["plain", "affine", "renum", "affine+renum"]
+        variants = ["plain", "affine", "renum", "affine+renum", "mirror"]
         k = 0
         for et in ["TRI3", "TRI6", "TRI10", "TRI15", "QUAD4", "QUAD8", "QUAD9", "MIXED"]:
             for law in laws2:
-                configs.append({"sim": "elastic", "elem": et, "law": law, "variant": variants[k % 4]})
+                configs.append({"sim": "elastic", "elem": et, "law": law, "variant": variants[k % 5]})
                 k += 1
         for et in ["TETRA4", "TETRA10", "HEXA8", "HEXA20", "HEXA27", "PRISM6", "PRISM15", "PRISM18"]:
             for law in laws3:
-                configs.append({"sim": "elastic", "elem": et, "law": law, "variant": variants[k % 4]})
+                configs.append({"sim": "elastic", "elem": et, "law": law, "variant": variants[k % 5]})
                 k += 1
         for et in ["SEG2", "SEG3", "SEG4", "SEG5"]:
             configs.append({"sim": "thermal", "elem": et})
         for et in ["TRI3", "TRI6", "TRI10", "TRI15", "QUAD4", "QUAD8", "QUAD9", "MIXED", "TETRA4", "TETRA10", "HEXA8", "HEXA20", "HEXA27", "PRISM6", "PRISM15", "PRISM18"]:
-            configs.append({"sim": "thermal", "elem": et, "variant": variants[k % 4]})
+            configs.append({"sim": "thermal", "elem": et, "variant": variants[k % 5]})
             k += 1
     # beams: constant axial strain and curvature on inclined members (exact Pythagorean directions)
     if tier == "quick":
